@@ -57,7 +57,21 @@ def run(ctx):
             if si % 2:
                 model = compile_lvs(text)       # the same text compiled a second time in this process: the second result is used
                 ctx.event('schema-text-compiled-twice')
-            checker = Checker(model, FNS_LIB)
+            if not schema.get('default_fns') and si % 6 == 3:
+                # the application provides its functions AFTER it built the checker (through its own dict, or the checker's attribute)
+                late_ = {}
+                checker = Checker(model, late_)
+                (late_ if si % 12 == 3 else checker.user_fns).update(FNS_LIB)
+                ctx.event('user-functions-provided-after-construction')
+            elif not schema.get('default_fns') and si % 6 == 5:
+                # ... or replaces the functions it gave at first by others of the same names before it asks anything
+                first_ = lvs.rival_fns(FNS_LIB)
+                checker = Checker(model, first_)
+                for k_, f_ in FNS_LIB.items():
+                    (first_ if si % 12 == 5 else checker.user_fns)[k_] = f_
+                ctx.event('user-functions-replaced-after-construction')
+            else:
+                checker = Checker(model, FNS_LIB)
             loaded = Checker.load(checker.save(), FNS_LIB)
             if not schema.get('default_fns') and si % 3 == 0:
                 # another checker of the same process (created later, asked first) whose functions carry the same names and answer otherwise
@@ -191,7 +205,7 @@ def run(ctx):
                      sample=dict(w, pkt=rc.name_to_uri(pkt, canonical=True), key=rc.name_to_uri(key, canonical=True), expected=exp) if exp and ctx.evaluations % 9000 == 1 else None)
     lvs.REENTER['checker'] = None
     ctx.extra['user_function_calls_that_re_entered_the_checker'] = lvs.REENTER['calls']
-    for k in ('schema-text-compiled-twice', 'rival-checker-with-same-named-functions', 'schema-with-functions-that-re-enter-their-checker'):
+    for k in ('user-functions-provided-after-construction', 'user-functions-replaced-after-construction', 'schema-text-compiled-twice', 'rival-checker-with-same-named-functions', 'schema-with-functions-that-re-enter-their-checker'):
         ctx.need_event(k)
     ctx.need_class('template-schema')
     ctx.need_event('model-without-symbol-table')
